@@ -292,7 +292,8 @@ BadDirect(p, o, stored, direct, req) ==
                          \/ a.n = "BulkAddRecord" /\ \E c \in DOMAIN a.c : c \in {req[a.t][k] : k \in 1..Len(req[a.t])}
                          \/ a.n = "BulkUpdateRecord" /\ \E c \in DOMAIN a.c :
                                c \in {req[a.t][k] : k \in 1..Len(req[a.t])} /\ a.t \in DOMAIN o
-                               /\ c \in DOMAIN o[a.t].isf /\ ~o[a.t].isf[c]
+                               /\ c \in DOMAIN o[a.t].hasf /\ ~o[a.t].hasf[c]   \* a plain data column
+                               /\ a.t \in DOMAIN p /\ c \in DOMAIN p[a.t].hasf /\ ~p[a.t].hasf[c]
   IN {<<i, "summary-direct">> : i \in {k \in 1..n : IsRec(stored[k]) /\ stored[k].t \in sums /\ direct[k]}}
      \cup {<<i, "formula-direct">> : i \in {k \in 1..n : AllFormula(stored[k]) /\ direct[k]}}
      \cup {<<i, "schema-direct">> : i \in {k \in 1..n : DOMAIN req # {} /\ ~IsRec(stored[k]) /\ direct[k]}}
